@@ -84,7 +84,7 @@ def add_reg(u):
         C('C07.reg.build_reg1_for.deadline_4s_after_send', 'final(self).pending_timeout_at_ms == now + 4000'),
         'final(self).reg1_target_idx == Some(conn_idx)', 'final(self).reg1_next_send_at_ms == now + 1000', ID_SAME,
         'final(self).active_connections == old(self).active_connections', 'final(self).broadcast_reg2_pending == old(self).broadcast_reg2_pending',
-        'final(self).has_connected == old(self).has_connected', 'final(self).probing_state == old(self).probing_state',
+        C('C04+C07.reg.build_reg1_for.session_established_flag_is_never_cleared', 'final(self).has_connected == old(self).has_connected'), 'final(self).probing_state == old(self).probing_state',
     ]))
     F(u.fn(R, 'build_reg2', impl='SrtlaRegistrationManager', sub='reg', ret='r', post_rewrite=[('create_reg2_packet(', 'create_reg2_packet_(', 1)], ensures=[
         C('C07.reg.build_reg2.carries_adopted_id', 'r@ == spec_reg_packet(0x9201u16, self.srtla_id@)')]))
@@ -120,7 +120,7 @@ def add_reg(u):
     F(u.fn(R, 'handle_reg_ngp', impl='SrtlaRegistrationManager', sub='reg', ensures=[
         C('C07.reg.handle_reg_ngp.never_makes_a_reg1_outstanding', 'final(self).pending_reg2_idx == old(self).pending_reg2_idx && final(self).pending_timeout_at_ms == old(self).pending_timeout_at_ms'),
         ID_SAME, 'final(self).broadcast_reg2_pending == old(self).broadcast_reg2_pending', 'final(self).active_connections == old(self).active_connections',
-        'final(self).has_connected == old(self).has_connected',
+        C('C04+C07.reg.handle_reg_ngp.session_established_flag_is_never_cleared', 'final(self).has_connected == old(self).has_connected'),
         C('C07.reg.handle_reg_ngp.target_only_while_idle', '''final(self).reg1_target_idx != old(self).reg1_target_idx ==> old(self).active_connections == 0 && old(self).pending_reg2_idx is None
             && final(self).reg1_target_idx == Some(conn_idx) && final(self).reg1_next_send_at_ms == now_ms'''),
     ]))
@@ -130,7 +130,7 @@ def add_reg(u):
         C('C07.reg.handle_reg2.rejects_short_or_wrong_uplink', '(buf.len() < 258 || old(self).pending_reg2_idx != Some(conn_idx)) ==> *final(self) == *old(self)'),
         C('C07.reg.handle_reg2.adopts_id_and_schedules_one_broadcast', '''(buf.len() >= 258 && old(self).pending_reg2_idx == Some(conn_idx)) ==> final(self).srtla_id@ == buf@.subrange(2, 258)
             && final(self).pending_reg2_idx is None && final(self).broadcast_reg2_pending && final(self).reg1_target_idx is None'''),
-        'final(self).active_connections == old(self).active_connections', 'final(self).has_connected == old(self).has_connected',
+        'final(self).active_connections == old(self).active_connections', C('C04+C07.reg.handle_reg2.session_established_flag_is_never_cleared', 'final(self).has_connected == old(self).has_connected'),
         'final(self).probing_state == old(self).probing_state',
     ]))
     F(u.fn(R, 'handle_reg3', impl='SrtlaRegistrationManager', sub='reg', ensures=[
@@ -138,7 +138,7 @@ def add_reg(u):
     F(u.fn(R, 'handle_reg_err', impl='SrtlaRegistrationManager', sub='reg', requires=['now_ms < CLOCK_MAX'], ensures=[
         C('C07.reg.handle_reg_err.cancels_pending', 'final(self).pending_reg2_idx is None && final(self).pending_timeout_at_ms == 0 && final(self).reg1_target_idx is None'),
         'final(self).reg1_next_send_at_ms == now_ms + 4000', ID_SAME, 'final(self).broadcast_reg2_pending == old(self).broadcast_reg2_pending',
-        'final(self).active_connections == old(self).active_connections', 'final(self).has_connected == old(self).has_connected',
+        'final(self).active_connections == old(self).active_connections', C('C04+C07.reg.handle_reg_err.session_established_flag_is_never_cleared', 'final(self).has_connected == old(self).has_connected'),
     ]))
     F(u.fn(R, 'reg1_if_ngp_immediate', impl='SrtlaRegistrationManager', sub='reg', ret='r', requires=[NOW], ensures=[
         C('C07.reg.immediate.reg1_only_while_no_uplink_registered_and_none_outstanding',
@@ -149,6 +149,20 @@ def add_reg(u):
         ID_SAME,
     ]))
     F(u.fn(R, 'pending_reg2_idx', impl='SrtlaRegistrationManager', sub='reg', ret='r', ensures=['r == self.pending_reg2_idx']))
+    import rules
+    F(u.fn(R, 'update_active_connections', impl='SrtlaRegistrationManager', sub='reg',
+           pre_rewrite=[(lambda t: rules.r12_filter_count(t)[0], None, 1)],
+           ensures=[
+               C('C07.reg.update_active_connections.counts_exactly_the_registered_uplinks', 'final(self).active_connections == spec_count_connected(connections@)'),
+               C('C07.reg.update_active_connections.frame', '*final(self) == (SrtlaRegistrationManager { active_connections: final(self).active_connections, ..*old(self) })'),
+           ],
+           loops={0: dict(inv=['c_nx <= connections.len()', 'new_count_n <= c_nx',
+                               C('C07.reg.update_active_connections.counts_exactly_the_registered_uplinks', 'new_count_n as nat == spec_count_connected(connections@.subrange(0, c_nx as int))')],
+                          dec='connections.len() - c_nx')},
+           splices=[('if c.connected { new_count_n += 1; }', '''proof {
+                assert(connections@.subrange(0, c_nx as int).drop_last() =~= connections@.subrange(0, c_nx as int - 1));
+            }''', 'after', 'opt'),
+                    ('let new_count = new_count_n;', 'proof { assert(connections@.subrange(0, c_nx as int) =~= connections@); }', 'after')]))
     F(u.fn(R, 'clear_pending_if_timed_out', impl='SrtlaRegistrationManager', sub='reg', ret='r', ensures=[
         C('C07.reg.clear_pending.abandons_exactly_when_deadline_passed',
           '''(r is Some) == (old(self).pending_reg2_idx is Some && old(self).pending_timeout_at_ms != 0 && now_ms_value >= old(self).pending_timeout_at_ms)
